@@ -4,10 +4,24 @@
    ([eq_refl] checked by the kernel's VM): a source change that removes a guard, registers a non-pure function
    side-effect-free, drops a callback test, ... makes exactly that theorem fail on the next run. *)
 From Icv Require Import Base.Tac Sandbox.SbModel Sandbox.SbFacts Sandbox.SbProofs Sandbox.SbObs
-  Sandbox.SbOracleProofs Sandbox.SbRefuted.
+  Sandbox.SbOracleProofs Sandbox.SbRefuted Sandbox.SbMember.
 From Coq Require Import NArith.
 
 (* ---------------- premises, computed over the current source facts ---------------- *)
+(* NO CONDITIONAL GUARDS.  No DoEvaluate begins with a sandbox test that carries a further condition
+   (`if (frame.Sandboxed && <cond>) throw`): such a test is not a guard (f_sb_exprs counts only the unconditional form),
+   and where the model understands the condition - a flag saying "member of a dictionary literal" - its evaluator lets
+   the exempted nodes run (C19_member_guard_refuted).  Also: icinga::BindToScope and the parser's only use of it with
+   ScopeThis still have the shape [sb_bind_scope] / [sb_parse_dict] transcribe. *)
+Theorem C19_guards_unconditional :
+  sb_cur_guard_conds = [] /\ sbf_cond_guards sb_cur_facts = [] /\ sb_cur_bind_scope_facts = true.
+Proof.
+  exact (conj (@eq_refl (list sb_name) [] <: sb_cur_guard_conds = [])
+        (conj (@eq_refl (list (sb_name * sb_gcond)) [] <: sbf_cond_guards sb_cur_facts = [])
+              (eq_refl true <: sb_cur_bind_scope_facts = true))).
+Qed.
+Print Assumptions C19_guards_unconditional.
+
 (* Set, SetConst, Apply, Object, Include, For: DoEvaluate begins with `if (frame.Sandboxed) throw` *)
 Theorem C19_all_writers_guarded : sb_all_writers_guarded sb_cur_facts = true.
 Proof. exact (eq_refl true <: sb_all_writers_guarded sb_cur_facts = true). Qed.
@@ -90,6 +104,13 @@ Proof.
 Qed.
 Print Assumptions C19_read_paths.
 
+(* the Sandboxed flag of a frame is set where the frame is set up and nowhere else: no assignment to (or handle on) a member
+   named Sandboxed in the interpreter (lib/config), in any native or anywhere else under lib/ than InitializeFrame's inherit
+   line and the API/CLI entry points (filterutility, eventqueue, consolehandler, consolecommand) *)
+Theorem C19_sandboxed_flag_stable : sb_cur_sandboxed_flag_stable = true.
+Proof. exact (eq_refl true <: sb_cur_sandboxed_flag_stable = true). Qed.
+Print Assumptions C19_sandboxed_flag_stable.
+
 Theorem C19_premises_hold : sb_premises sb_cur_facts = true.
 Proof. exact (eq_refl true <: sb_premises sb_cur_facts = true). Qed.
 Print Assumptions C19_premises_hold.
@@ -121,6 +142,60 @@ Theorem C19_no_write : forall fuel fr e s,
   sb_protected (snd (sb_eval sb_cur_facts fuel fr e s)) = sb_protected s.
 Proof. exact (fun fuel fr e s => sb_no_write sb_cur_facts fuel fr e s C19_premises_hold). Qed.
 Print Assumptions C19_no_write.
+
+(* POSITIONS AND LEFT-HAND SIDES, explicitly.  The statement above is over ALL syntax trees; in particular over what the
+   parser builds for a dictionary literal `{ m1; m2; ... }` ([sb_parse_dict]: every member assignment carries the member
+   flag, its left-hand side is rebased onto the new dictionary only if its root is a bare identifier or a string
+   literal) with ARBITRARY members - assignments with any operator and any left-hand side (globals.x, locals.x, this.x,
+   f(..).attr, f(..)[0].vars.k, *ref, ...), at any nesting depth, anywhere inside any expression [ctx] builds around it *)
+Theorem C19_no_write_dict_members : forall fuel fr members (ctx : sb_expr -> sb_expr) s,
+  sbfr_sandboxed fr = true -> sbfr_top fr = true -> sb_frame_ok sb_cur_facts fr = true ->
+  sb_protected (snd (sb_eval sb_cur_facts fuel fr (ctx (sb_parse_dict members)) s)) = sb_protected s.
+Proof. exact (fun fuel fr members ctx s => sb_no_write sb_cur_facts fuel fr (ctx (sb_parse_dict members)) s C19_premises_hold). Qed.
+Print Assumptions C19_no_write_dict_members.
+
+(* what BindToScope does to a left-hand side, for all of them: a root that is a bare identifier or a string literal becomes
+   `<scope>.<name>`; any other root (a scope, a call, a dereference, an array, a number, ...) leaves the whole left-hand
+   side untouched - so the member flag says nothing about where the assignment writes *)
+Theorem C19_bind_scope_roots : forall sc lhs,
+  (sb_root_rebased lhs = true -> sb_lhs_root (sb_bind_scope sc lhs) = SbGetScope sc) /\
+  (sb_root_untouched lhs = true -> sb_bind_scope sc lhs = lhs).
+Proof. exact (fun sc lhs => conj (sb_bind_scope_rebases sc lhs) (sb_bind_scope_untouched sc lhs)). Qed.
+Print Assumptions C19_bind_scope_roots.
+
+(* sensitivity: on facts where the guard of SetExpression exempts dictionary members (`Sandboxed && !<member flag>`) the
+   sandboxed programs `{ globals.X = 42 }`, `{ globals.X += 1 }`, `{ get_object(Host, "h").display_name = "x" }` and
+   `{ a = { get_objects(Host)[0].vars.added = true } }` change the global namespace resp. the live Host resp. its custom
+   variables, while `{ x = 1 }`, `{ "x" = 1 }`, `{ this.x = 1 }` evaluate and change nothing and the plain statement
+   `globals.X = 42` is still refused; such facts fail sb_all_writers_guarded.  On the current facts all are refused. *)
+Theorem C19_member_guard_refuted :
+  sb_protected (snd (sb_run_member sb_facts_member_exempt (sb_member_prog_global false) [])) <> sb_protected (sb_member_st []) /\
+  sb_protected (snd (sb_run_member sb_facts_member_exempt (sb_member_prog_global true) [])) <> sb_protected (sb_member_st []) /\
+  (let ch := [sb_ch (SbVObj sb_t_Host (SbShared 1))] in
+   nth 1 (sbs_shared (snd (sb_run_member sb_facts_member_exempt sb_member_prog_call ch))) [] <> nth 1 (sbs_shared (sb_member_st ch)) []) /\
+  (let ch := [sb_ch (SbVObj sb_t_Array (SbLocal 1))] in
+   nth 2 (sbs_shared (snd (sb_run_member sb_facts_member_exempt sb_member_prog_nested ch))) [] <> nth 2 (sbs_shared (sb_member_st ch)) []) /\
+  sb_member_local_ok (SbVariable sb_n_x []) /\ sb_member_local_ok (sb_lit sb_n_x) /\
+  sb_member_local_ok (SbIndexer (SbGetScope SbScopeThis) (sb_lit sb_n_x)) /\
+  fst (sb_run_member sb_facts_member_exempt (SbSet false false (sb_glob sb_n_X) sb_num) []) = SbRErr SbESandbox /\
+  sb_all_writers_guarded sb_facts_member_exempt = false /\ sb_premises sb_facts_member_exempt = false.
+Proof. exact sb_member_exempt_writes. Qed.
+Print Assumptions C19_member_guard_refuted.
+
+Theorem C19_member_current_refused :
+  sb_run_member sb_cur_facts (sb_member_prog_global false) [] = (SbRErr SbESandbox, sb_member_refused_st) /\
+  sb_run_member sb_cur_facts (sb_member_prog_global true) [] = (SbRErr SbESandbox, sb_member_refused_st) /\
+  sb_run_member sb_cur_facts sb_member_prog_call [] = (SbRErr SbESandbox, sb_member_refused_st) /\
+  sb_run_member sb_cur_facts sb_member_prog_nested [] = (SbRErr SbESandbox, sb_member_refused_st) /\
+  sb_run_member sb_cur_facts (sb_member_prog_local (SbVariable sb_n_x [])) [] = (SbRErr SbESandbox, sb_member_refused_st).
+Proof.
+  exact (conj (@eq_refl _ (@SbRErr sb_val SbESandbox, sb_member_refused_st) <: sb_run_member sb_cur_facts (sb_member_prog_global false) [] = (SbRErr SbESandbox, sb_member_refused_st))
+        (conj (@eq_refl _ (@SbRErr sb_val SbESandbox, sb_member_refused_st) <: sb_run_member sb_cur_facts (sb_member_prog_global true) [] = (SbRErr SbESandbox, sb_member_refused_st))
+        (conj (@eq_refl _ (@SbRErr sb_val SbESandbox, sb_member_refused_st) <: sb_run_member sb_cur_facts sb_member_prog_call [] = (SbRErr SbESandbox, sb_member_refused_st))
+        (conj (@eq_refl _ (@SbRErr sb_val SbESandbox, sb_member_refused_st) <: sb_run_member sb_cur_facts sb_member_prog_nested [] = (SbRErr SbESandbox, sb_member_refused_st))
+              (@eq_refl _ (@SbRErr sb_val SbESandbox, sb_member_refused_st) <: sb_run_member sb_cur_facts (sb_member_prog_local (SbVariable sb_n_x [])) [] = (SbRErr SbESandbox, sb_member_refused_st)))))).
+Qed.
+Print Assumptions C19_member_current_refused.
 
 (* NATIVES.  Registered side-effect-free => established pure by the regenerated analysis ... *)
 Theorem C19_safe_natives_pure : forall nm,
